@@ -341,8 +341,10 @@ func TestC06(t *testing.T) {
 						afterRead++
 					}
 				}
-				if afterRead > 1 {
-					bad = fmt.Sprintf("%d probes emitted after the engine saw the destination answer at %s (at most one in flight allowed)", afterRead, destReadAt)
+				// sends are instantaneous on this wire, so no probe can be "in flight" when the answer is
+				// seen: a probe that leaves at a later (virtual) instant was sent after the engine knew
+				if afterRead > 0 {
+					bad = fmt.Sprintf("%d probe(s) emitted after the engine had seen the destination answer at %s — none was in flight at that instant (the sends of this run return at once)", afterRead, destReadAt)
 				}
 			}
 			if destSeenAt >= 0 {
